@@ -198,22 +198,31 @@ WeekSeq(w) == [i \in 1 .. 7 |-> <<w[i - 1].s, w[i - 1].e>>]
 
 \* ------------------------------------------------------------- serialisation
 \* Validation is exercised in milliseconds (the unit of the JSON form).
-MS == INSTANCE ScheduleCore WITH TPD <- 86400000, TPM <- 60000, SUB <- 1, WD0 <- 4
+MS == INSTANCE ScheduleCore WITH TPD <- 86400000, TPM <- 60000, SUB <- 1000000, WD0 <- 4
 
+\* Bounds in milliseconds, and -- around the critical values -- with a
+\* sub-millisecond part in nanoseconds (1 ns, 1/64 ms, 1/2 ms, 1 ms - 1 ns):
+\* "not whole minutes" has to hold down to the resolution of the decoded value.
 SerVals == {-3600000, -60000, -1, 0, 1, 30000, 59999, 60000, 90000, 120000,
             43200000, 86340000, 86399999, 86400000, 86400001, 86460000,
             90000000, 172800000}
+MSUB == 1000000
+SerBounds == {[t |-> v, n |-> 0] : v \in SerVals}
+               \cup {[t |-> v, n |-> k] : v \in {-1, 0, 60000, 43200000, 86400000},
+                                          k \in {1, 15625, 500000, MSUB - 1}}
 Fillers == {"empty", "full", "work"}
-Filler(f) == CASE f = "empty" -> MS!EmptyDay
-               [] f = "full"  -> MS!FullDay
-               [] f = "work"  -> [s |-> 9 * 3600000, e |-> 17 * 3600000 + 30 * 60000]
+R4(a, b, an, bn) == [s |-> a, e |-> b, sn |-> an, en |-> bn]
+Empty4 == R4(0, 0, 0, 0)
+Filler(f) == CASE f = "empty" -> Empty4
+               [] f = "full"  -> R4(0, 86400000, 0, 0)
+               [] f = "work"  -> R4(9 * 3600000, 17 * 3600000 + 30 * 60000, 0, 0)
 SerWeek(d, r, f) == [x \in Weekdays |-> IF x = d THEN r ELSE Filler(f)]
 
 \* The JSON form leaves out (null) the days whose range is empty; YAML writes
 \* all seven.  Reading puts the empty range back.
-Absent == [s |-> -1, e |-> -1]
-ToJSON(w)   == [x \in Weekdays |-> IF w[x] = MS!EmptyDay THEN Absent ELSE w[x]]
-FromJSON(j) == [x \in Weekdays |-> IF j[x] = Absent THEN MS!EmptyDay ELSE j[x]]
+Absent == R4(-1, -1, 0, 0)
+ToJSON(w)   == [x \in Weekdays |-> IF w[x] = Empty4 THEN Absent ELSE w[x]]
+FromJSON(j) == [x \in Weekdays |-> IF j[x] = Absent THEN Empty4 ELSE j[x]]
 ToYAML(w)   == w
 FromYAML(y) == y
 
@@ -248,11 +257,12 @@ Eval == /\ st = "case"
         /\ UNCHANGED <<cs, ser>>
 
 PickSer == /\ st = "start"
-           /\ \E d \in Weekdays, a \in SerVals, b \in SerVals, f \in Fillers :
-                LET r == [s |-> a, e |-> b] IN
+           /\ \E d \in Weekdays, a \in SerBounds, b \in SerBounds, f \in Fillers :
+                LET r == R4(a.t, b.t, a.n, b.n) IN
                 /\ ser' = [d |-> d, r |-> r, fill |-> f, verdicts |-> MS!WeekVerdicts(SerWeek(d, r, f))]
                 /\ (Emit # "none" =>
-                      PrintT(<<"@@V", ToJson([k |-> "ser", d |-> d, s |-> a, e |-> b, fill |-> f,
+                      PrintT(<<"@@V", ToJson([k |-> "ser", d |-> d, s |-> a.t, sn |-> a.n, e |-> b.t,
+                                              en |-> b.n, fill |-> f,
                                               verdicts |-> SX!SetToSeq(ser'.verdicts)])>>))
            /\ st' = "ser"
            /\ UNCHANGED <<cs, sh, out>>
@@ -309,6 +319,8 @@ VerdictsSound ==
                /\ ~(MS!MustReject(ser.r) /\ MS!WellFormed(ser.r))
                /\ (MS!Negative(ser.r) \/ MS!Inverted(ser.r) \/ MS!TooLong(ser.r) \/ MS!Ragged(ser.r)
                      => ser.verdicts = {"reject"})
+               \* any sub-millisecond excess is "not whole minutes"
+               /\ (ser.r.sn # 0 \/ ser.r.en # 0 => ser.verdicts = {"reject"})
                /\ (ser.verdicts = {"accept"} => ser.r.e - ser.r.s <= 86400000 /\ ser.r.s >= 0)
 RoundTripIdentity ==
     SerDone /\ "accept" \in ser.verdicts =>
